@@ -22,7 +22,11 @@ closes the channel and joins the worker, which finishes all of it.
    Proofs/BusyDropSys.lean). The events of the `drop` are those of the idle run
    followed by `workerExit true`.
 2. `c14_busy_restart_step` / `c14_busy_drop_then_open`: drop + open from a state
-   with nothing pending on the caller side.
+   with nothing pending on the caller side. The only hypothesis on failed syncs:
+   a write request is in hand or queued (`Worker.willSyncD14`: the caller's last
+   flush is not finished — nothing else is needed, a removal postponed by a failed
+   sync is retried right after the batch the join syncs), or the last sync did not
+   fail. `c14_busy_failed_sync_needed`: it cannot be dropped.
 3. `c14_after_busy_drop_nothing_changes`: any history without `open` between the
    `drop` and the `open` changes nothing.
 4. `c14_busy_refinement_continues`, `c14_busy_history_after_restart`: the new
@@ -31,6 +35,7 @@ closes the channel and joins the worker, which finishes all of it.
 import RaftLogModel.Props.C14
 import RaftLogModel.Props.C02
 import RaftLogModel.Proofs.BusyDropSys
+import RaftLogModel.Proofs.PostponedD14
 namespace RaftLog
 
 /-! ### 1. `drop` with a busy worker = let the worker finish, then `drop` -/
@@ -73,6 +78,25 @@ theorem c14_busy_nothing_postponed (y : Sys) (s : Store) (hs : y.store = some s)
     (hl : y.worker.lastSyncFailed = false) (hp : y.worker.postponed = []) :
     (y.step .workerIdle).worker.postponed = [] :=
   y.workerIdle_noPostponedC14b s hs hw hl hp
+
+/-- A removal postponed by a failed sync is retried after every batch: if a write request
+is in hand or queued (`willSyncD14`) — whatever `lastSyncFailed` and `postponed` are —, or
+the last sync did not fail, the all-ok run the `drop` performs ends with a good last sync
+and nothing postponed. `hpo` is the invariant `c08`/`SysPostD14.run` gives for every
+history from a fresh store (`c14_busy_postponed_invariant`). -/
+theorem c14_busy_nothing_postponed_sync (y : Sys) (s : Store) (hs : y.store = some s) (hw : y.worker.WF)
+    (ht : y.worker.TodoOK) (hpo : PostponedOnlyAfterFailedSyncD14 y.worker)
+    (hsync : y.worker.willSyncD14 ∨ y.worker.lastSyncFailed = false) :
+    (y.step .workerIdle).worker.lastSyncFailed = false ∧ (y.step .workerIdle).worker.postponed = [] :=
+  y.workerIdle_cleanD14 s hs hw ht hpo hsync
+
+/-- Along every history from a fresh store, while the store is open: removals are postponed
+only while the last sync has failed, and the request that ended the batch in hand is not a
+write. -/
+theorem c14_busy_postponed_invariant (cfg : Cfg) (steps : List Step)
+    (hs : ((Sys.fresh cfg).run steps).store ≠ none) :
+    PostponedOnlyAfterFailedSyncD14 ((Sys.fresh cfg).run steps).worker :=
+  (SysPostD14.fresh cfg).run steps hs
 
 /-! ### 2. Drop with a busy worker, then open -/
 
@@ -182,8 +206,13 @@ theorem c14_busy_drop_then_open_idle (cfg cfg' : Cfg) (steps : List Step) (r : R
 
 /-- **C14, drop with a busy worker, then open.** As
 `c14_busy_drop_then_open_idle`, with the hypothesis on postponed removals
-stated on the state `y` at the time of the `drop`: no sync failure is
-outstanding (`lastSyncFailed = false`) and nothing is postponed. -/
+stated on the state `y` at the time of the `drop`: a write request is in hand or
+queued (`willSyncD14`: the worker is at a write request or in the middle of a
+batch, or a write request is queued — the caller's last flush is not finished;
+then NOTHING is assumed about `lastSyncFailed` and `postponed`), or no sync
+failure is outstanding (`lastSyncFailed = false`; e.g. the worker is already
+quiet). `c14_busy_failed_sync_needed`: a quiet worker with an outstanding sync
+failure and a postponed removal is a counterexample. -/
 theorem c14_busy_drop_then_open (cfg cfg' : Cfg) (steps : List Step) (r : RefLog) (s : Store)
     (hsteps : ∀ st ∈ steps, st.journal = true)
     (hlegal : RefLog.run {} (stepOps steps) = some r)
@@ -191,8 +220,8 @@ theorem c14_busy_drop_then_open (cfg cfg' : Cfg) (steps : List Step) (r : RefLog
     (halive : ((Sys.fresh cfg).run steps).worker.pc ≠ .dead)
     (hs : ((Sys.fresh cfg).run steps).store = some s)
     (hp : s.pending = []) (hrem : s.removed = [])
-    (hpost : ((Sys.fresh cfg).run steps).worker.postponed = [])
-    (hlsf : ((Sys.fresh cfg).run steps).worker.lastSyncFailed = false) :
+    (hsync : ((Sys.fresh cfg).run steps).worker.willSyncD14 ∨
+      ((Sys.fresh cfg).run steps).worker.lastSyncFailed = false) :
     let y := (Sys.fresh cfg).run steps
     let y1 := y.step .drop
     let y2 := y1.step (.openWith cfg')
@@ -208,7 +237,9 @@ theorem c14_busy_drop_then_open (cfg cfg' : Cfg) (steps : List Step) (r : RefLog
       s'.pending = [] ∧ s'.removed = [] ∧ s'.cfg = cfg' ∧
       J y2 ∧ CSys y2 r :=
   c14_busy_drop_then_open_idle cfg cfg' steps r s hsteps hlegal hwf halive hs hp hrem
-    (c14_busy_nothing_postponed _ s hs ((SysWF.fresh cfg).run steps (by simp [hs])).1 hlsf hpost)
+    (c14_busy_nothing_postponed_sync _ s hs ((SysWF.fresh cfg).run steps (by simp [hs])).1
+      ((SysWF.fresh cfg).run steps (by simp [hs])).2
+      (c14_busy_postponed_invariant cfg steps (by simp [hs])) hsync).2
 
 /-! ### 3. Between the drop and the open nothing changes -/
 
@@ -227,8 +258,8 @@ theorem c14_after_busy_drop_nothing_changes (cfg cfg' : Cfg) (steps more : List 
     (halive : ((Sys.fresh cfg).run steps).worker.pc ≠ .dead)
     (hs : ((Sys.fresh cfg).run steps).store = some s)
     (hp : s.pending = []) (hrem : s.removed = [])
-    (hpost : ((Sys.fresh cfg).run steps).worker.postponed = [])
-    (hlsf : ((Sys.fresh cfg).run steps).worker.lastSyncFailed = false)
+    (hsync : ((Sys.fresh cfg).run steps).worker.willSyncD14 ∨
+      ((Sys.fresh cfg).run steps).worker.lastSyncFailed = false)
     (hmore : ∀ st ∈ more, st.noOpen = true) :
     let y := (Sys.fresh cfg).run steps
     let y1 := y.step .drop
@@ -256,7 +287,7 @@ theorem c14_after_busy_drop_nothing_changes (cfg cfg' : Cfg) (steps more : List 
       (fun st h => hmore st (List.mem_append_left _ h))
     exact this.2.2.2.2.2
   obtain ⟨_, e2, _, _, _, _, s', g1, g2, g3, g4, g5, g6, g7, _, g8, g9, g10, g11, g12, g13, g14⟩ :=
-    c14_busy_drop_then_open cfg cfg' steps r s hsteps hlegal hwf halive hs hp hrem hpost hlsf
+    c14_busy_drop_then_open cfg cfg' steps r s hsteps hlegal hwf halive hs hp hrem hsync
   have h6 : y2' = y1.step (.openWith cfg') := by show y1'.step _ = _; rw [h5]
   refine ⟨h5, by rw [h5], e2, hpre, h6, s', ?_, ?_, ?_, ?_, g5, g6, g7, g8, g9, g10, g11, g12, ?_, ?_⟩
   · rw [h6]; exact g1
@@ -280,8 +311,8 @@ theorem c14_busy_refinement_continues (cfg cfg' : Cfg) (steps : List Step) (r : 
     (halive : ((Sys.fresh cfg).run steps).worker.pc ≠ .dead)
     (hs : ((Sys.fresh cfg).run steps).store = some s)
     (hp : s.pending = []) (hrem : s.removed = [])
-    (hpost : ((Sys.fresh cfg).run steps).worker.postponed = [])
-    (hlsf : ((Sys.fresh cfg).run steps).worker.lastSyncFailed = false)
+    (hsync : ((Sys.fresh cfg).run steps).worker.willSyncD14 ∨
+      ((Sys.fresh cfg).run steps).worker.lastSyncFailed = false)
     (hN : (fileAppends (((Sys.fresh cfg).run steps).step .drop).fs).length ≤ cfg'.cacheItems)
     (hB : sumLen (fileAppends (((Sys.fresh cfg).run steps).step .drop).fs) ≤ cfg'.cacheCap) :
     let y1 := ((Sys.fresh cfg).run steps).step .drop
@@ -295,7 +326,8 @@ theorem c14_busy_refinement_continues (cfg cfg' : Cfg) (steps : List Step) (r : 
   have hC : CSys _ r := run_CSys steps _ {} r (fresh_CSys cfg) hsteps hlegal hwf halive
   have hwf' := (SysWF.fresh cfg).run steps (by simp [hs])
   have ha := c14_busy_senderAlive cfg steps hsteps
-  have hpostI := c14_busy_nothing_postponed _ s hs hwf'.1 hlsf hpost
+  have hpostI := (c14_busy_nothing_postponed_sync _ s hs hwf'.1 hwf'.2
+    (c14_busy_postponed_invariant cfg steps (by simp [hs])) hsync).2
   obtain ⟨_, _, _, _, _, _, s', g1, _, _, _, _, _, _, _, _, _, _, _, _, _, g15⟩ :=
     c14_busy_restart_step _ r cfg' s hC hs hwf'.2 ha hp hrem hpostI
   obtain ⟨href, hsys⟩ := g15 hN hB
@@ -316,8 +348,8 @@ theorem c14_busy_history_after_restart (cfg cfg' : Cfg) (steps more : List Step)
     (halive : ((Sys.fresh cfg).run steps).worker.pc ≠ .dead)
     (hs : ((Sys.fresh cfg).run steps).store = some s)
     (hp : s.pending = []) (hrem : s.removed = [])
-    (hpost : ((Sys.fresh cfg).run steps).worker.postponed = [])
-    (hlsf : ((Sys.fresh cfg).run steps).worker.lastSyncFailed = false)
+    (hsync : ((Sys.fresh cfg).run steps).worker.willSyncD14 ∨
+      ((Sys.fresh cfg).run steps).worker.lastSyncFailed = false)
     (hmore : ∀ st ∈ more, st.c01 = true) (hlegal2 : r.run (stepOps more) = some r2)
     (hsmall2 : ∀ op ∈ stepOps more, op.small)
     (hN : (fileAppends (((Sys.fresh cfg).run steps).step .drop).fs).length + opsCount (stepOps more)
@@ -332,7 +364,7 @@ theorem c14_busy_history_after_restart (cfg cfg' : Cfg) (steps more : List Step)
       ∃ s3 seg, (y2.run pre).store = some s3 ∧ (s3.call (y2.run pre).fs.has op).1 = .ok seg) := by
   intro y2
   obtain ⟨s', _, _, _, _, href⟩ := c14_busy_refinement_continues cfg cfg' steps r s hsteps hlegal hwf
-    halive hs hp hrem hpost hlsf (by omega) (by omega)
+    halive hs hp hrem hsync (by omega) (by omega)
   obtain ⟨⟨s2, hs2, href2, _⟩, hcalls⟩ := run_sysRef more y2 r r2
     (href.mono (by omega) (by omega)) hmore hlegal2 hsmall2
   refine ⟨⟨s2, hs2, href2.st, fun a b => href2.read _ a b, href2.iter _⟩, ?_⟩
@@ -367,7 +399,7 @@ example :
     ((Sys.fresh { maxRecords := 2 }).run c14BusyExample).worker.pc ≠ .dead ∧
     ((Sys.fresh { maxRecords := 2 }).run c14BusyExample).worker.quiet = false ∧
     ((Sys.fresh { maxRecords := 2 }).run c14BusyExample).worker.queue.length = 13 ∧
-    ((Sys.fresh { maxRecords := 2 }).run c14BusyExample).worker.postponed = [] ∧
+    ((Sys.fresh { maxRecords := 2 }).run c14BusyExample).worker.willSyncD14 ∧
     ((Sys.fresh { maxRecords := 2 }).run c14BusyExample).worker.lastSyncFailed = false ∧
     (∃ s, ((Sys.fresh { maxRecords := 2 }).run c14BusyExample).store = some s ∧ s.pending = [] ∧
       s.removed = [] ∧ s.closed.map Closed.id = [198, 282, 360] ∧ s.openId = 497) ∧
@@ -413,38 +445,64 @@ example :
       ((((Sys.fresh { maxRecords := 2 }).run c14BusyExample).step .workerIdle).step .drop).worker := by
   decide +kernel
 
-/-- Why "nothing postponed" is a hypothesis. Chunks hold two records; a purge
-drops the chunks `0` and `51`; the `fdatasync` in front of the `removeChunks`
-request fails (`eio`), so the worker postpones the removal
-(`postponed = [0, 51]`, `lastSyncFailed = true`) — it would carry it out with
-the next `removeChunks` request after a good sync. User data, a flush, and the
-`drop` while the worker holds that flush: nothing is pending on the caller side
-(`pending = []`, `removed = []`), the join writes and syncs everything — and the
-postponed removal is never executed. After drop + open the state and the index
-map are still the same, but the two obsolete chunks, whose files are still
-linked, are loaded as closed chunks. -/
-def c14BusyPostponedExample : Sys :=
+/-- Why "a write in hand or queued, or no failed sync outstanding" is a hypothesis.
+Chunks hold two records; a purge drops the chunks `0` and `51`; the `fdatasync` in front
+of the `removeChunks` request fails (`eio`), so the worker postpones the removal
+(`postponed = [0, 51]`, `lastSyncFailed = true`) — it carries it out right after the next
+batch whose sync succeeds. But no further flush comes: the worker is idle with an empty
+queue, nothing is pending on the caller side (`pending = []`, `removed = []`), and the
+store is dropped. The join has nothing to write or sync, so the postponed removal is
+never executed. After drop + open the state and the index map are still the same, but the
+two obsolete chunks, whose files are still linked, are loaded as closed chunks. -/
+def c14BusyFailedSyncExample : Sys :=
   (Sys.fresh { maxRecords := 2 }).run
     [ .call (.append [(⟨1, 0⟩, [1]), (⟨1, 1⟩, [2]), (⟨1, 2⟩, [3])]),
       .flush none, .workerIdle,
       .call (.purge ⟨1, 1⟩),
       .flush none,
-      .worker .ok, .worker .ok, .worker .ok, .worker .ok, .worker .ok, .worker .eio,
-      .call (.saveUserData (some [42])),
-      .flush (some 1) ]
+      .worker .ok, .worker .ok, .worker .ok, .worker .ok, .worker .ok, .worker .eio ]
 
-theorem c14_busy_postponed_needed :
+theorem c14_busy_failed_sync_needed :
+    c14BusyFailedSyncExample.worker.pc = .idle ∧
+    c14BusyFailedSyncExample.worker.queue = [] ∧
+    ¬ c14BusyFailedSyncExample.worker.willSyncD14 ∧
+    c14BusyFailedSyncExample.worker.postponed = [0, 51] ∧
+    c14BusyFailedSyncExample.worker.lastSyncFailed = true ∧
+    c14BusyFailedSyncExample.store.map (fun s => (s.pending, s.removed, s.closed.map Closed.id, s.openId))
+      = some ([], [], [118, 185], 247) ∧
+    (c14BusyFailedSyncExample.step .workerIdle).worker.postponed = [0, 51] ∧
+    c14BusyFailedSyncExample.dropStore.2 = [.workerExit true] ∧
+    ((c14BusyFailedSyncExample.step .drop).fs.filter (fun f => f.linked)).map (·.id) =
+      [0, 51, 118, 185, 247] ∧
+    ((c14BusyFailedSyncExample.step .drop).step (.openWith { maxRecords := 2 })).store.map
+      (fun s => (s.closed.map Closed.id, s.openId)) = some ([0, 51, 118, 185], 247) ∧
+    ((c14BusyFailedSyncExample.step .drop).step (.openWith { maxRecords := 2 })).store.map
+      (fun s => (s.st, s.log)) = c14BusyFailedSyncExample.store.map (fun s => (s.st, s.log)) := by
+  decide +kernel
+
+/-- The same history continued by user data and a flush, and the `drop` while the worker
+holds that flush (the history that, before the postponed removal was retried after every
+batch, left the chunks `0` and `51` linked for ever): the worker has a write in hand, so
+`c14_busy_drop_then_open` applies although `lastSyncFailed = true` and
+`postponed = [0, 51]` at the `drop`. The join writes and syncs the flush, then unlinks the
+two postponed chunks; after drop + open the chunk table is the store's. -/
+def c14BusyPostponedExample : Sys :=
+  c14BusyFailedSyncExample.run [ .call (.saveUserData (some [42])), .flush (some 1) ]
+
+example :
     c14BusyPostponedExample.worker.pc ≠ .dead ∧
+    c14BusyPostponedExample.worker.willSyncD14 ∧
     c14BusyPostponedExample.worker.postponed = [0, 51] ∧
     c14BusyPostponedExample.worker.lastSyncFailed = true ∧
     c14BusyPostponedExample.store.map (fun s => (s.pending, s.removed, s.closed.map Closed.id, s.openId))
       = some ([], [], [118, 185, 247], 352) ∧
-    (c14BusyPostponedExample.step .workerIdle).worker.postponed = [0, 51] ∧
+    (c14BusyPostponedExample.step .workerIdle).worker.postponed = [] ∧
     cbsOf c14BusyPostponedExample.dropStore.2 = [(1, true)] ∧
+    unlinksOf c14BusyPostponedExample.dropStore.2 = [(0, true), (51, true)] ∧
     ((c14BusyPostponedExample.step .drop).fs.filter (fun f => f.linked)).map (·.id) =
-      [0, 51, 118, 185, 247, 352] ∧
+      [118, 185, 247, 352] ∧
     ((c14BusyPostponedExample.step .drop).step (.openWith { maxRecords := 2 })).store.map
-      (fun s => (s.closed.map Closed.id, s.openId)) = some ([0, 51, 118, 185, 247], 352) ∧
+      (fun s => (s.closed.map Closed.id, s.openId)) = some ([118, 185, 247], 352) ∧
     ((c14BusyPostponedExample.step .drop).step (.openWith { maxRecords := 2 })).store.map
       (fun s => (s.st, s.log)) = c14BusyPostponedExample.store.map (fun s => (s.st, s.log)) := by
   decide +kernel
